@@ -970,9 +970,18 @@ breaker('C16', 'ds-pack-base', 'C16.R1', DSPY, 'DemoStorage.pack',
             self.base.pack(t, referencesf, gc=False)
             self.changes.pack(t, referencesf, gc=False)''')
 breaker('C16', 'ds-begin-on-base', 'C16.R1', DSPY, 'DemoStorage.tpc_begin',
-        '''            self.changes.tpc_begin(transaction, *a, **k)''',
-        '''            self.changes.tpc_begin(transaction, *a, **k)
-            self.base.tpc_begin(transaction, *a, **k)''')
+        '''        self.changes.tpc_begin(transaction, *a, **k)''',
+        '''        self.changes.tpc_begin(transaction, *a, **k)
+        self.base.tpc_begin(transaction, *a, **k)''')
+breaker('C08', 'ds-begin-changes-under-shared-lock', 'C08.R15', DSPY,
+        'DemoStorage.tpc_begin',
+        '''            del self._resolved[:]
+        # (Not under the storage lock, which is the changes storage's own:
+        # its tpc_begin waits for its commit lock, and a file storage that
+        # is being packed takes the storage lock while it holds that.)
+        self.changes.tpc_begin(transaction, *a, **k)''',
+        '''            del self._resolved[:]
+            self.changes.tpc_begin(transaction, *a, **k)''')
 breaker('C16', 'ds-finish-not-delegated', 'C16.R2', DSPY,
         'DemoStorage.tpc_finish',
         'tid = self.changes.tpc_finish(transaction, func)',
